@@ -3,10 +3,10 @@ package main
 // C08 — configured limits are in force; exhausting them yields the matching verdict.
 
 import (
-	"sort"
-	"go/types"
 	"fmt"
 	"go/token"
+	"go/types"
+	"sort"
 	"strings"
 
 	"golang.org/x/tools/go/ssa"
@@ -313,9 +313,9 @@ func checkUsageVerdicts(c *Check, sc *statusConsts) {
 				ret := false
 				for _, b := range tr.Blocks {
 					if iff := blockIf(b); iff != nil {
-						if bo, ok := iff.Cond.(*ssa.BinOp); ok && bo.Op == token.NEQ {
+						if bo, _, ne, ok := eqEdges(iff); ok {
 							if ex, ok := bo.X.(*ssa.Extract); ok && ex.Tuple == ssa.Value(call) && ex.Index == 2 {
-								if v, ok := constInt(bo.Y); ok && v == sc.byName["StatusNormal"] && leadsToReturn(b.Succs[0], 3) {
+								if v, ok := constInt(bo.Y); ok && v == sc.byName["StatusNormal"] && leadsToReturn(b.Succs[ne], 3) {
 									ret = true
 								}
 							}
